@@ -503,8 +503,13 @@ xds_decoder(vbi_decoder *vbi, int _class, int type,
 				sum &= ((1UL << 31) - 1);
 				sum |= 1UL << 30;
 
-				if (n->nuid != 0)
+				if (n->nuid != 0) {
+					/* Resets the caption decoder too,
+					   which takes the mutex. */
+					pthread_mutex_unlock (&vbi->cc.mutex);
 					vbi_chsw_reset(vbi, sum);
+					pthread_mutex_lock (&vbi->cc.mutex);
+				}
 
 				n->nuid = sum;
 
@@ -1434,6 +1439,9 @@ vbi_caption_channel_switched(vbi_decoder *vbi)
 	cc_channel *ch;
 	int i;
 
+	/* vbi_fetch_cc_page() may read the pages from another thread. */
+	pthread_mutex_lock (&cc->mutex);
+
 	for (i = 0; i < 9; i++) {
 		ch = &cc->channel[i];
 
@@ -1475,6 +1483,8 @@ vbi_caption_channel_switched(vbi_decoder *vbi)
 	cc->info_cycle[1] = 0;
 
 	vbi_caption_desync(vbi);
+
+	pthread_mutex_unlock (&cc->mutex);
 }
 
 static vbi_rgba
